@@ -177,6 +177,10 @@ class OpacityCache(Singleton):
         """
         GlobalCache()['xsec_interpolation'] = interpolation_mode
         self.clear_cache()
+        # k-tables read the same setting when they are loaded: the ones
+        # already loaded must follow the new mode as well
+        from .ktablecache import KTableCache
+        KTableCache().clear_cache()
     
     
 
